@@ -783,3 +783,17 @@ package zerolog
 //@   loop 1:
 //@     invariant 0 <= rangepos && rangepos <= len(s)
 //@     invariant forall k in 0..rangepos: !(s[k] < 32 || s[k] > 126 || s[k] == 32 || s[k] == 92 || s[k] == 34)
+
+// ---------------------------------------------------------------------------
+// ctx.go: WithContext always stores a pointer to a copy of the receiver made
+// for this call (hlog.NewHandler relies on it: the logger a request finds in
+// its context is the request's own), except for a disabled logger when the
+// context carries none.
+//@ track context.WithValue, Context.Value
+//@ func (Logger).WithContext(l, ctx) res
+//@   props C18 C05
+//@   arith int
+//@   requires ctx != nil
+//@   ensures ncalls(Context.Value) == old(ncalls(Context.Value)) + 1
+//@   ensures typeis(callres(Context.Value, old(ncalls(Context.Value)), 0), "*Logger") || l.level != Disabled ==> ncalls(context.WithValue) == old(ncalls(context.WithValue)) + 1 && callarg(context.WithValue, old(ncalls(context.WithValue)), 0) == ctx && res == callres(context.WithValue, old(ncalls(context.WithValue)), 0)
+//@   ensures typeis(callres(Context.Value, old(ncalls(Context.Value)), 0), "*Logger") || l.level != Disabled ==> typeis(callarg(context.WithValue, old(ncalls(context.WithValue)), 2), "*Logger") && fresh(dyn(callarg(context.WithValue, old(ncalls(context.WithValue)), 2), "*Logger")) && same(dyn(callarg(context.WithValue, old(ncalls(context.WithValue)), 2), "*Logger").context, l.context) && dyn(callarg(context.WithValue, old(ncalls(context.WithValue)), 2), "*Logger").w == l.w && dyn(callarg(context.WithValue, old(ncalls(context.WithValue)), 2), "*Logger").level == l.level
